@@ -257,3 +257,181 @@ Proof.
   destruct (resolve_inv _ _ _ _ Hinv E) as [_ [_ [_ Hres]]].
   apply (Hres sym eq_refl). unfold is_builtin_scope. rewrite Hb. reflexivity.
 Qed.
+
+(* ---------- C10: names declared at the top level keep their meaning ---------- *)
+
+Fixpoint root_table (s : stack) : option table :=
+  match s with
+  | [] => None
+  | [t] => Some t
+  | _ :: rest => root_table rest
+  end.
+
+Definition root_lookup (s : stack) (n : string) : option symbol :=
+  match root_table s with Some t => lookup n (t_store t) | None => None end.
+
+Definition non_builtin (sym : symbol) : Prop := is_builtin_scope sym = false.
+
+Lemma root_table_cons t rest : rest <> [] -> root_table (t :: rest) = root_table rest.
+Proof. destruct rest; [congruence | reflexivity]. Qed.
+
+Lemma update_max_nonempty s k : s <> [] -> update_max s k <> [].
+Proof. destruct s as [|t r]; [congruence|]. intros _. simpl. destruct (t_block t); discriminate. Qed.
+
+Lemma root_lookup_update_max s k n : root_lookup (update_max s k) n = root_lookup s n.
+Proof.
+  unfold root_lookup. induction s as [|t r IH]; [reflexivity|].
+  destruct r as [|u r'].
+  - simpl. destruct (t_block t); reflexivity.
+  - change (update_max (t :: u :: r') k) with
+      (let t' := {| t_store := t_store t; t_disabled := t_disabled t; t_frees := t_frees t; t_shadowed := t_shadowed t;
+                    t_numdef := t_numdef t; t_maxdef := Z.max (t_maxdef t) k; t_numparams := t_numparams t;
+                    t_block := t_block t; t_disable_params := t_disable_params t |} in
+       if t_block t then t' :: update_max (u :: r') k else t' :: u :: r').
+    cbv zeta. destruct (t_block t).
+    + rewrite root_table_cons by (apply update_max_nonempty; discriminate).
+      rewrite root_table_cons by discriminate. exact IH.
+    + rewrite !root_table_cons by discriminate. reflexivity.
+Qed.
+
+Lemma lookup_put_shadow_keep t m sym n x :
+  lookup n (t_store t) = Some x -> lookup m (t_store t) = None ->
+  lookup n (t_store (put_shadow t m sym)) = Some x.
+Proof.
+  intros H Hm. unfold put_shadow. cbn [t_store]. rewrite lookup_put.
+  destruct (String.eqb n m) eqn:E; [apply String.eqb_eq in E; subst; congruence | exact H].
+Qed.
+
+Lemma root_lookup_head_nonroot t t' rest n : rest <> [] -> root_lookup (t' :: rest) n = root_lookup (t :: rest) n.
+Proof. intros H. unfold root_lookup. rewrite !root_table_cons by exact H. reflexivity. Qed.
+
+Lemma resolve_length s : forall n s' r, resolve s n = (s', r) -> List.length s' = List.length s.
+Proof.
+  induction s as [|t rest IH]; intros n s' r H; simpl in H; [inversion H; reflexivity|].
+  destruct (lookup n (t_store t)); [inversion H; reflexivity|].
+  destruct rest as [|u r'].
+  - destruct (mem n (t_disabled t)); [inversion H; reflexivity|].
+    destruct (builtin_index n builtins_map); inversion H; reflexivity.
+  - destruct (resolve (u :: r') n) as [rest' rr] eqn:Er. apply IH in Er.
+    destruct rr as [sym|].
+    + destruct (negb (t_block t) && match s_scope sym with ScGlobal | ScBuiltin | ScConstLit => false | _ => true end).
+      * unfold define_free in H. inversion H; subst. cbn [List.length] in *. lia.
+      * inversion H; subst. cbn [List.length] in *. lia.
+    + inversion H; subst. cbn [List.length] in *. lia.
+Qed.
+
+Lemma resolve_root_lookup s n s' r m x :
+  resolve s n = (s', r) -> root_lookup s m = Some x -> root_lookup s' m = Some x.
+Proof.
+  revert s' r. induction s as [|t rest IH]; intros s' r H Hm; simpl in H.
+  - inversion H; subst. exact Hm.
+  - destruct (lookup n (t_store t)) as [sym|]; [inversion H; subst; exact Hm|].
+    destruct rest as [|u r'].
+    + destruct (mem n (t_disabled t)); [inversion H; subst; exact Hm|].
+      destruct (builtin_index n builtins_map); inversion H; subst; exact Hm.
+    + destruct (resolve (u :: r') n) as [rest' rr] eqn:Er.
+      assert (Hne: rest' <> []).
+      { intros E0. subst rest'. apply resolve_length in Er. discriminate. }
+      assert (Hrest: root_lookup rest' m = Some x).
+      { eapply IH; [reflexivity|]. unfold root_lookup in *. rewrite root_table_cons in Hm by discriminate. exact Hm. }
+      destruct rr as [sym|].
+      * destruct (negb (t_block t) && _); [unfold define_free in H|]; inversion H; subst;
+          unfold root_lookup in *; rewrite root_table_cons by exact Hne; exact Hrest.
+      * inversion H; subst. unfold root_lookup in *. rewrite root_table_cons by exact Hne. exact Hrest.
+Qed.
+
+Lemma fold_disable_keep names st n x :
+  lookup n st = Some x -> is_builtin_scope x = false ->
+  lookup n (fold_left (fun st n => match lookup n st with
+                                   | Some sym => match s_scope sym with ScBuiltin => remove n st | _ => st end
+                                   | None => st end) names st) = Some x.
+Proof.
+  revert st. induction names as [|m r IH]; intros st H Hb; simpl; [exact H|].
+  apply IH; [|exact Hb].
+  destruct (lookup m st) as [sm|] eqn:Em; [|exact H].
+  destruct (s_scope sm) eqn:Es; try exact H.
+  destruct (String.eqb n m) eqn:E.
+  - apply String.eqb_eq in E. subst. rewrite Em in H. inversion H; subst.
+    unfold is_builtin_scope in Hb. rewrite Es in Hb. discriminate.
+  - rewrite lookup_remove_other by exact E. exact H.
+Qed.
+
+Lemma disable_root_lookup s names n x :
+  root_lookup s n = Some x -> is_builtin_scope x = false -> root_lookup (disable_builtin s names) n = Some x.
+Proof.
+  induction s as [|t rest IH]; intros H Hb; [exact H|].
+  destruct rest as [|u r].
+  - unfold root_lookup in *. simpl in *. apply fold_disable_keep; assumption.
+  - change (disable_builtin (t :: u :: r) names) with (t :: disable_builtin (u :: r) names).
+    unfold root_lookup in *. rewrite root_table_cons in H by discriminate.
+    rewrite root_table_cons by (destruct r; simpl; discriminate). apply IH; assumption.
+Qed.
+
+(* a non-builtin symbol bound at the top level is never rebound or removed by any later
+   operation: variables, constants and globals declared by an earlier fragment keep their slot
+   and scope in every later fragment *)
+Lemma set_params_go_root ps : forall s n x, root_lookup s n = Some x -> root_lookup (fst (set_params_go ps s)) n = Some x.
+Proof.
+  induction ps as [|p ps IH]; intros s n x H; [exact H|].
+  destruct s as [|t rest]; [exact H|]. cbn [set_params_go].
+  destruct (lookup p (t_store t)) eqn:El; [exact H|].
+  apply IH. rewrite root_lookup_update_max.
+  destruct rest as [|u r].
+  - unfold root_lookup in *. simpl in *. apply lookup_put_shadow_keep; [exact H | exact El].
+  - rewrite (root_lookup_head_nonroot t) by discriminate. exact H.
+Qed.
+
+Theorem root_symbol_stable s o n x :
+  root_lookup s n = Some x -> is_builtin_scope x = false ->
+  root_lookup (fst (apply_op s o)) n = Some x.
+Proof.
+  intros H Hb. destruct o as [b| |n0|n0|n0|n0|ps|ns]; cbn [apply_op].
+  - (* fork *) cbn [fst]. unfold fork. destruct s as [|t rest]; [exact H|].
+    unfold root_lookup in *. rewrite root_table_cons by discriminate. exact H.
+  - (* leave *) cbn [fst]. unfold leave. destruct s as [|t [|u rest]]; exact H.
+  - destruct (resolve s n0) as [s' r] eqn:E. cbn [fst]. eapply resolve_root_lookup; eassumption.
+  - (* define_local *)
+    destruct (define_local s n0) as [s' r] eqn:E. cbn [fst].
+    unfold define_local in E. destruct s as [|t rest]; [inversion E; subst; exact H|].
+    destruct (lookup n0 (t_store t)) eqn:El; [inversion E; subst; exact H|].
+    pose proof (f_equal fst E) as E1; cbn [fst] in E1. rewrite <- E1.
+    rewrite root_lookup_update_max.
+    destruct rest as [|u r0].
+    + unfold root_lookup in *. simpl in *. apply lookup_put_shadow_keep; [exact H | exact El].
+    + rewrite (root_lookup_head_nonroot t) by discriminate. exact H.
+  - (* define_global *)
+    destruct (define_global s n0) as [s' r] eqn:E. cbn [fst].
+    unfold define_global in E. destruct s as [|t [|u rest]]; try (inversion E; subst; exact H).
+    destruct (lookup n0 (t_store t)) as [sym|] eqn:El.
+    + destruct (s_scope sym); inversion E; subst; exact H.
+    + pose proof (f_equal fst E) as E1; cbn [fst] in E1. rewrite <- E1.
+      unfold root_lookup in *. simpl in *. apply lookup_put_shadow_keep; [exact H | exact El].
+  - (* define_const *)
+    destruct (define_const_lit s n0) as [s' r] eqn:E. cbn [fst].
+    unfold define_const_lit in E. destruct s as [|t rest]; [inversion E; subst; exact H|].
+    destruct (lookup n0 (t_store t)) eqn:El; [inversion E; subst; exact H|].
+    pose proof (f_equal fst E) as E1; cbn [fst] in E1. rewrite <- E1.
+    destruct rest as [|u r0].
+    + unfold root_lookup in *. simpl in *. apply lookup_put_shadow_keep; [exact H | exact El].
+    + rewrite (root_lookup_head_nonroot t) by discriminate. exact H.
+  - (* set_params *)
+    destruct (set_params s ps) as [s' b] eqn:E. cbn [fst].
+    unfold set_params in E. destruct ps as [|p ps]; [inversion E; subst; exact H|].
+    destruct s as [|t rest]; [inversion E; subst; exact H|].
+    destruct (0 <? t_numparams t); [inversion E; subst; exact H|].
+    destruct (t_disable_params t); [inversion E; subst; exact H|].
+    pose proof (f_equal fst E) as E1; cbn [fst] in E1. rewrite <- E1.
+    apply set_params_go_root.
+    destruct rest as [|u r0]; [exact H|]. rewrite (root_lookup_head_nonroot t) by discriminate. exact H.
+  - cbn [fst]. apply disable_root_lookup; assumption.
+Qed.
+
+Theorem root_symbol_stable_history ops : forall s n x,
+  root_lookup s n = Some x -> is_builtin_scope x = false ->
+  root_lookup (fst (run_ops s ops)) n = Some x.
+Proof.
+  induction ops as [|o r IH]; intros s n x H Hb; simpl; [exact H|].
+  pose proof (root_symbol_stable s o n x H Hb) as H1.
+  destruct (apply_op s o) as [s1 y]. simpl in H1.
+  specialize (IH s1 n x H1 Hb). destruct (run_ops s1 r) as [s2 ys]. exact IH.
+Qed.
